@@ -7,6 +7,7 @@
     C09_call_is_current_composite C09_call_is_current_composite_history
     C09_disp_after_replace C09_linked_follows_source
     C07_shared_params C07_inverse_succeeds
+    C09_regrid_dense_partial C09_regrid_bspline_partial
 
   (`C07_*` — the state-machine clause of C07 — live in Props/C07State.lean, which this file imports
   so that the C09 check audits them too.)
@@ -17,15 +18,21 @@
   `C07_shared_params` for (Parameter, link=True) (F-07). The model follows the repaired code; both
   are now proved without exception.
 
-  Not proved here:
+  Partial:
   * `C09_regrid_preserves_world_Statement` (re-gridding preserves the world deformation) is a
     statement about the dense-field / B-spline layers (C10, C14), not about this state machine,
-    which *assumes* it (a re-gridded tensor keeps its content version). It is kept as a labelled
-    `def` and covered by the oracle `regrid_world` only.
+    which *assumes* it (a re-gridded tensor keeps its content version). Proved of it:
+    `C09_regrid_dense_partial` (the vector stored at every sample of the new grid has the world value
+    of the old field's linear interpolant at that point, for any pair of grids and conventions) and
+    `C09_regrid_bspline_partial` (control-grid refinement keeps the spline's value at every old
+    sample). Not proved: that the interpolant of the NEW parameters agrees with the old one BETWEEN
+    the new samples (true up to linear-interpolation error only; oracle `regrid_world`).
 -/
 import Deepali.Proofs.TransformStateCurrent
 import Deepali.Proofs.TransformStateComposite
 import Deepali.Props.C07State
+import Deepali.Props.C10
+import Deepali.Props.C14
 
 set_option linter.unusedSectionVars false
 set_option linter.unusedVariables false
@@ -183,5 +190,35 @@ example : (runOuts World.empty
 def C09_regrid_preserves_world_Statement {Field Grid Pt Vec : Type} (regrid : Grid → Grid → Field → Field)
     (world : Grid → Field → Pt → Vec) (dom : Grid → Pt → Prop) : Prop :=
   ∀ (g g' : Grid) (p : Field) (x : Pt), dom g x → dom g' x → world g' (regrid g g' p) x = world g p x
+
+section Regrid
+variable {K : Type} [Field K] [LinearOrder K] [IsStrictOrderedRing K] [FloorRing K] {d : Nat}
+
+/-- **dense models** (`DenseVectorFieldTransform.grid_`): whatever the old and new grids (size, spacing, orientation,
+    centre) and their `align_corners` conventions (`a`, `a'` = cube axes of the old / new grid), the vector stored for a
+    sample of the new grid means the same WORLD displacement as the old field's interpolated value `s` at that point.
+    (Dropping either conversion — the seeded change C09-1 drops the second — breaks this equation.) -/
+theorem C09_regrid_dense_partial {g g' : Grid d K} (h : g.Valid) (h' : g'.Valid) (a a' : Axes)
+    (ha : g.CornersOK a) (ha' : g'.CornersOK a) (ha'' : g'.CornersOK a') (s : Vec d K) :
+    g'.transformVectors a' .world (denseRegridAt g g' a a' s) = g.transformVectors a .world s := by
+  have hw : g'.CornersOK .world := fun hc => by cases hc
+  unfold denseRegridAt
+  have hpi := congrFun (C10_axes_path_independent h' a a' .world ha' ha'' hw (fun _ => g.transformVectorsTo a g' a s)) (fun _ => 0)
+  simp only [flowAxes] at hpi
+  rw [hpi]
+  exact C10_sample_rescale h h' a ha ha' s
+
+/-- **spline models** (`BSplineTransform.grid_`, image size `m → 2m − 1` along an axis): the refined coefficients give
+    the old spline value at every old sample (new sample `2x`), for every stride — `C14_ffd_refine_same_function`. -/
+theorem C09_regrid_bspline_partial (m s : Nat) (hs : 1 ≤ s) (hm : 1 ≤ m) (c : List K)
+    (hc : c.length = ctrlSize m s) (x : Nat) (hx : x < m) :
+    getZ (evalWeights (weightTable s 0) (ffdRefine1d (2 * m - 1) s c)) (2 * x)
+      = getZ (evalWeights (weightTable s 0) c) x :=
+  C14_ffd_refine_same_function m s hs hm c hc x hx
+
+/-- non-vacuity: a rotated anisotropic grid regridded to a grid of the other convention. -/
+example : (exampleGrid : Grid 2 ℚ).Valid ∧ (exampleGrid2 : Grid 2 ℚ).Valid := ⟨exampleGrid_valid, exampleGrid2_valid⟩
+
+end Regrid
 
 end Deepali
